@@ -28,7 +28,7 @@ class Node:
 class Pool:
     """accumulates the Python source of the generated classes"""
     HEADER = ["from dataclasses import dataclass, field", "from typing import *", "from enum import Enum, IntEnum",
-              "from apischema import alias, schema, dependent_required, properties", "from apischema.metadata import fall_back_on_default, flatten", "NoneType = type(None)",
+              "from apischema import alias, schema, dependent_required, properties", "from apischema.metadata import fall_back_on_default, flatten, skip", "NoneType = type(None)",
               "from uuid import UUID", "from datetime import date", ""]
     def __init__(self): self.src = list(self.HEADER); self.n = 0
     def fresh(self, p): self.n += 1; return f"{p}{self.n}"
@@ -400,6 +400,20 @@ class Gen:
               dict(name="b", alias="b", required=False, fbod=False, ty=self.g_str(0), dflt=lit_proto("dv"), dflt_src="'dv'")]
         node = self._obj_node("dataclass", n, fs, decl=lines)
         node.tags = ("postinit",)
+        return node
+    def g_plainskip(self, d):
+        """raw dataclass with a defaulted field that deserialization skips (`skip` / `skip(deserialization=True)`): the field keeps its default whatever
+        builds the instance (outside the Lean model: tag `postinit`)"""
+        n = self.pool.fresh("C")
+        md = self.rnd.choice(["skip", "skip(deserialization=True)"])
+        dflt = self.rnd.choice(["default_factory=list", "default=5"])
+        lines = ["@dataclass", f"class {n}:", "    a: int", "    b: str = 'dv'", f"    sk: {'List[int]' if 'list' in dflt else 'int'} = field({dflt}, metadata={md})"]
+        if self.rnd.random() < 0.5: lines = lines[:3] + lines[4:]            # (no other defaulted field: every deserialized field may be given)
+        self.pool.add(lines)
+        fs = [dict(name="a", alias="a", required=True, fbod=False, ty=self.g_int(0), dflt=None, dflt_src=None)]
+        if len(lines) == 5: fs.append(dict(name="b", alias="b", required=False, fbod=False, ty=self.g_str(0), dflt=lit_proto("dv"), dflt_src="'dv'"))
+        node = self._obj_node("dataclass", n, fs, decl=lines)
+        node.tags = ("postinit", "skipfield")
         return node
     def g_recursive(self, d):
         """self-recursive dataclass (through Optional and, sometimes, a list); presented to the model as its unfolding to
